@@ -224,9 +224,35 @@ def template_tie(ctx):
     return n
 
 
+def replay_known(ctx):
+    """each listed finding's stored example is evaluated first, so its KNOWN-FINDING line appears on every run"""
+    import mistune
+    ast = mistune.create_markdown(renderer=None)
+    for k in ctx.known:
+        ex = k.get("example") or {}
+        if "doc" not in ex:
+            continue
+        doc = ex["doc"]
+        container = "quote" if doc.startswith(">") else "bullet"
+        tok = find_code(ast(doc), container)
+        got = tok["raw"] if tok else None
+        if got != ex["expected"]:
+            case = {"kind": "fenced", "container": container, "doc": doc, "expected": ex["expected"], "closed": True}
+            kind = classify(case, got or "")
+            ctx.fail("fenced:%s:%s" % (container, kind or "differs"), "stored example of a known finding: expected %r, got %r" % (ex["expected"], got), dict(case, got=got))
+        else:
+            ctx.notes.append("a stored known-finding example no longer fails: %r" % doc)
+
+
 def run(ctx):
     ctx.broken += common.proof_stage(ctx, THEOREMS)
+    replay_known(ctx)
     template_tie(ctx)
+    tdocs = []
+    for _ in range(1500 if ctx.quick() else 15000):
+        r = ctx.rng.random()
+        tdocs.append((fenced_case(ctx.rng) if r < 0.6 else indented_case(ctx.rng) if r < 0.8 else span_case(ctx.rng))["doc"])
+    common.model_tie(ctx, tdocs, "core", "doc")
     n = oracle(ctx, 6000 if ctx.quick() else 80000)
     if ctx.broken and not [f for f in ctx.failures if not ctx.is_known(f["signature"])]:
         ctx.notes.append("search mode entered")
